@@ -194,3 +194,27 @@ def mentions_field(t, adt, name):
         if s[0] == "ptr" and e in s[2]:
             return True
     return False
+
+
+class _S:
+    def __init__(self, store):
+        self.store = store
+
+
+def resolve_locals(eng, store, t, depth=5):
+    """replace pointers to frame locals by the values they point to (for provenance checks)"""
+    if depth == 0:
+        return t
+
+    def f(x):
+        if x[0] == "ptr" and x[1][0] == "L":
+            v = eng.read_rp(_S(store), x[1], x[2])
+            if v[0] == "undef":
+                return None
+            return resolve_locals(eng, store, v, depth - 1)
+        if x[0] == "ptr" and x[1][0] == "D":
+            inner = resolve_locals(eng, store, x[1][1], depth - 1)
+            if inner != x[1][1]:
+                return ("ptr", ("D", inner), x[2])
+        return None
+    return rewrite(t, f)
